@@ -523,11 +523,12 @@ fn cmp_cols(what: &str, a: &Cols, b: &Cols, rows: Option<&[bool]>, n: usize) -> 
 		match (ca, cb) {
 			(None, None) => {}
 			(Some(x), Some(y)) => {
-				if x.len() != n || y.len() != n {
+				// (one side is usually the model, whose columns have exactly `n` rows)
+				if x.len() != y.len() {
 					return Err(format!("{}.{}: length {} vs {} (rows {})", what, pa, x.len(), y.len(), n));
 				}
-				for i in 0..n {
-					if rows.map_or(true, |r| r[i]) && x[i] != y[i] {
+				for i in 0..x.len() {
+					if rows.map_or(true, |r| r.get(i).copied().unwrap_or(true)) && x[i] != y[i] {
 						return Err(format!("{}.{} row {}: {:#x} vs {:#x}", what, pa, i, x[i], y[i]));
 					}
 				}
@@ -543,10 +544,10 @@ fn cmp_cols(what: &str, a: &Cols, b: &Cols, rows: Option<&[bool]>, n: usize) -> 
 fn cmp_char(what: &str, a: &CharView, b: &CharView, n: usize) -> Result<(), String> {
 	let va: Vec<bool> = a.valid.clone().unwrap_or_else(|| vec![true; n]);
 	let vb: Vec<bool> = b.valid.clone().unwrap_or_else(|| vec![true; n]);
-	if va.len() != n || vb.len() != n {
+	if va.len() != vb.len() {
 		return Err(format!("{}: validity length {} vs {} (rows {})", what, va.len(), vb.len(), n));
 	}
-	if let Some(i) = (0..n).find(|&i| va[i] != vb[i]) {
+	if let Some(i) = (0..va.len()).find(|&i| va[i] != vb[i]) {
 		return Err(format!("{}: presence at row {}: {} vs {}", what, i, va[i], vb[i]));
 	}
 	cmp_cols(&format!("{}.pre", what), &a.pre, &b.pre, Some(&va), n)?;
@@ -590,9 +591,6 @@ pub fn diff_views(a: &FrameView, b: &FrameView) -> Result<(), String> {
 		(Some(x), Some(y)) => {
 			if x != y {
 				return Err(format!("item offsets differ: {:?} vs {:?}", &x[..x.len().min(12)], &y[..y.len().min(12)]));
-			}
-			if x.len() != n + 1 {
-				return Err(format!("item offsets length {} for {} rows", x.len(), n));
 			}
 		}
 		_ => return Err("item offsets presence differs".into()),
